@@ -10,7 +10,7 @@ SD = os.path.join(VERIF, "seeded")
 HEAD = """# Independently seeded changes
 
 Each directory holds `patch.diff`, `demo.py` (exit 0 + `PROPERTY HOLDS` on the unchanged tree, exit 1 + `PROPERTY VIOLATED` with the patch) and `meta.json` (what it breaks, what it needs to manifest, what was run, which checks catch it).
-Round 1 (`Cnn`): one change per claimed property. Round 2 (`Cnnx`, `Cnny`): two more per property, different mechanisms, not the obvious one. Round 3 (`Cnnp`, `Cnnq`): two more, required to need a specific interleaving, a crash or fault at a particular point, or a multi-step sequence. Round 4 (`Cnnr`, `Cnns`): two more under the same requirement, written after being told which mechanisms rounds 1-3 had already used. Round 5 (`Cnnu`): one more per property (its sibling `Cnnt`, a behaviour-preserving rewrite, is in `/verif/seeded_preserving/`). Round 6 (`Cnnw`): one more (sibling `Cnnv`, a permitted change of observable behaviour, in `/verif/seeded_permitted/`). Round 7 (`Cnnn`): one more (sibling `Cnnm`, a second permitted change). All %(n)d were written by sub-agents that were given only the text of one property and scratch git worktrees (nothing from /verif), confirmed by hand with `tools/confirm_seeded.sh` (demo on both trees; the whole suite on the changed tree: 404 passed, the same 19 pre-existing failures) and then run against the checks with `tools/run_seeded.py` (patch applied to /repo and undone straight afterwards, or -- while a background thorough run was using /repo -- to a scratch copy selected with ELIOT_SRC). None of them is committed to /repo. Rounds 1/2 were written against /repo 9168f63, round 3 against 7e5edd0, rounds 4 to 7 against 066252b; patches that overlap a later fix are evaluated on the tree of the commit they were written against (`base_commit` in meta.json).
+Round 1 (`Cnn`): one change per claimed property. Round 2 (`Cnnx`, `Cnny`): two more per property, different mechanisms, not the obvious one. Round 3 (`Cnnp`, `Cnnq`): two more, required to need a specific interleaving, a crash or fault at a particular point, or a multi-step sequence. Round 4 (`Cnnr`, `Cnns`): two more under the same requirement, written after being told which mechanisms rounds 1-3 had already used. Round 5 (`Cnnu`): one more per property (its sibling `Cnnt`, a behaviour-preserving rewrite, is in `/verif/seeded_preserving/`). Round 6 (`Cnnw`): one more (sibling `Cnnv`, a permitted change of observable behaviour, in `/verif/seeded_permitted/`). Round 7 (`Cnnn`): one more (sibling `Cnnm`, a second permitted change). Round 8 (`Cnnk`): one more (sibling `Cnnj`, a third permitted change). All %(n)d were written by sub-agents that were given only the text of one property and scratch git worktrees (nothing from /verif), confirmed by hand with `tools/confirm_seeded.sh` (demo on both trees; the whole suite on the changed tree: 404 passed, the same 19 pre-existing failures) and then run against the checks with `tools/run_seeded.py` (patch applied to /repo and undone straight afterwards, or -- while a background thorough run was using /repo -- to a scratch copy selected with ELIOT_SRC). None of them is committed to /repo. Rounds 1/2 were written against /repo 9168f63, round 3 against 7e5edd0, rounds 4 to 8 against 066252b; patches that overlap a later fix are evaluated on the tree of the commit they were written against (`base_commit` in meta.json).
 
 %(caught)d of the %(n)d are caught by the quick tier (C03p is not, on purpose: see its row).
 
